@@ -12,7 +12,10 @@
 package main
 
 import (
+	"bytes"
+	"crypto/sha512"
 	"fmt"
+	"math/big"
 	"math/bits"
 	"strings"
 
@@ -45,7 +48,7 @@ type CertSpec struct {
 }
 
 type Step struct {
-	Kind string   `json:"k"` // verify | load | wait | cosi-swap
+	Kind string   `json:"k"` // verify | load | wait | cosi-swap | variants
 	Cert int      `json:"c,omitempty"`
 	Ops  []mbr.Op `json:"ops,omitempty"`
 }
@@ -100,20 +103,39 @@ func maskKeys(mask uint64) []int {
 	return k
 }
 
-// rawEquation: does sig verify over hash under the plain sum of the selected keys
-// (library point addition + the repo's exported single-key verification)
+// rawEquation: the aggregate Schnorr equation [S]B = R + [c](sum of selected keys),
+// c = SHA-512(R || A || hash) reduced, evaluated with the LIBRARY primitives only and
+// with canonical parsing of every encoding (keys, R, and S via SetCanonicalBytes).
+// Nothing of the repository's verification code is used here.
 func rawEquation(sel []*crypto.Key, hash crypto.Hash, sig crypto.Signature) bool {
 	P := edwards25519.NewIdentityPoint()
 	for _, k := range sel {
 		p, err := edwards25519.NewIdentityPoint().SetBytes(k[:])
-		if err != nil {
+		if err != nil || !bytes.Equal(p.Bytes(), k[:]) {
 			return false
 		}
 		P = P.Add(P, p)
 	}
-	var A crypto.Key
-	copy(A[:], P.Bytes())
-	return A.Verify(hash, sig)
+	R, err := edwards25519.NewIdentityPoint().SetBytes(sig[:32])
+	if err != nil || !bytes.Equal(R.Bytes(), sig[:32]) {
+		return false
+	}
+	S, err := edwards25519.NewScalar().SetCanonicalBytes(sig[32:])
+	if err != nil {
+		return false
+	}
+	h := sha512.New()
+	h.Write(sig[:32])
+	h.Write(P.Bytes())
+	h.Write(hash[:])
+	cc, err := edwards25519.NewScalar().SetUniformBytes(h.Sum(nil))
+	if err != nil {
+		return false
+	}
+	left := edwards25519.NewIdentityPoint().ScalarBaseMult(S)
+	right := edwards25519.NewIdentityPoint().ScalarMult(cc, P)
+	right = right.Add(right, R)
+	return left.Equal(right) == 1
 }
 
 type cert struct {
@@ -121,6 +143,20 @@ type cert struct {
 	snap *common.Snapshot
 	sig  crypto.Signature // zero when NilSig
 	mask uint64
+	// honest certificates only: sum of nonce scalars, sum of private keys, key set signed for
+	rsum, asum *edwards25519.Scalar
+	pubs       []*crypto.Key
+}
+
+type recReader struct {
+	d      detReader
+	chunks [][]byte
+}
+
+func (r *recReader) Read(p []byte) (int, error) {
+	n, err := r.d.Read(p)
+	r.chunks = append(r.chunks, append([]byte(nil), p[:n]...))
+	return n, err
 }
 
 func deriveCert(w *mbr.World, ref *kernel.Node, spec CertSpec, base *cert) *cert {
@@ -168,6 +204,8 @@ func buildCert(w *mbr.World, ref *kernel.Node, cs Case, spec CertSpec) *cert {
 	}
 	signed := hashOf(spec.Hash)
 	sig := &crypto.CosiSignature{}
+	var hrs, has *edwards25519.Scalar
+	var hp []*crypto.Key
 	if n == 0 {
 		sig.Mask = r.U64() >> uint(r.Intn(64))
 		copy(sig.Signature[:], r.Bytes(64))
@@ -204,8 +242,10 @@ func buildCert(w *mbr.World, ref *kernel.Node, cs Case, spec CertSpec) *cert {
 		}
 		nonces := map[int]*crypto.CosiNonce{}
 		commitments := map[int]*crypto.Key{}
+		rr := &recReader{d: detReader{r}}
+		honest := spec.Forge == ""
 		for _, i := range chosen {
-			nc := crypto.CosiCommitNonce(detReader{r})
+			nc := crypto.CosiCommitNonce(rr)
 			pub := nc.Public()
 			nonces[i] = nc
 			commitments[i] = &pub
@@ -222,6 +262,9 @@ func buildCert(w *mbr.World, ref *kernel.Node, cs Case, spec CertSpec) *cert {
 		}
 		for _, i := range chosen {
 			key := priv[*pubs[i]]
+			if key == nil {
+				honest = false
+			}
 			if key == nil || i == wrong {
 				other := crypto.NewKeyFromSeed(r.Bytes(64))
 				key = &other
@@ -234,6 +277,22 @@ func buildCert(w *mbr.World, ref *kernel.Node, cs Case, spec CertSpec) *cert {
 		}
 		if err := sig.AggregateResponse(pubs, responses, signed, false); err != nil {
 			panic(err)
+		}
+		if honest && len(rr.chunks) == len(chosen) {
+			rs, as := edwards25519.NewScalar(), edwards25519.NewScalar()
+			for j, i := range chosen {
+				rk := crypto.NewKeyFromSeed(rr.chunks[j])
+				x, e1 := edwards25519.NewScalar().SetCanonicalBytes(rk[:])
+				y, e2 := edwards25519.NewScalar().SetCanonicalBytes(priv[*pubs[i]][:])
+				if e1 != nil || e2 != nil {
+					honest = false
+					break
+				}
+				rs, as = rs.Add(rs, x), as.Add(as, y)
+			}
+			if honest {
+				hrs, has, hp = rs, as, pubs
+			}
 		}
 		switch spec.Forge {
 		case "mask-flip":
@@ -253,7 +312,7 @@ func buildCert(w *mbr.World, ref *kernel.Node, cs Case, spec CertSpec) *cert {
 			sig.Signature[r.Intn(32)] ^= 1 << uint(r.Intn(8))
 		}
 	}
-	c := &cert{spec: spec, mask: sig.Mask, sig: sig.Signature}
+	c := &cert{spec: spec, mask: sig.Mask, sig: sig.Signature, rsum: hrs, asum: has, pubs: hp}
 	c.snap = &common.Snapshot{
 		Version:     spec.Version,
 		NodeId:      w.S(spec.Info).Id,
@@ -331,6 +390,174 @@ func hashTerm(a *mbr.Alias, h crypto.Hash) string {
 	return a.N(h[:])
 }
 
+type rec struct {
+	step  Step
+	store []mbr.Rec
+	cert  *cert
+	res   result
+	cids  []crypto.Hash
+	pubs  []*crypto.Key
+	thr   int
+	cand  [][]*crypto.Key
+}
+
+// ---- algebraically equivalent re-encodings of a signature -----------------------------------
+
+var groupL, _ = new(big.Int).SetString("7237005577332262213973186563042994240857116359379907606001950938285454250989", 10)
+var fieldP = new(big.Int).Sub(new(big.Int).Lsh(big.NewInt(1), 255), big.NewInt(19))
+
+func leInt(b []byte) *big.Int {
+	r := make([]byte, len(b))
+	for i := range b {
+		r[len(b)-1-i] = b[i]
+	}
+	return new(big.Int).SetBytes(r)
+}
+
+func le32(v *big.Int) []byte {
+	be := v.FillBytes(make([]byte, 32))
+	for i := 0; i < 16; i++ {
+		be[i], be[31-i] = be[31-i], be[i]
+	}
+	return be
+}
+
+type variant struct {
+	name string
+	sig  crypto.Signature
+}
+
+// small-order points: order 2, 4, 4, 8
+var torsionHex = []string{
+	"ecffffffffffffffffffffffffffffffffffffffffffffffffffffffffffff7f",
+	"0000000000000000000000000000000000000000000000000000000000000000",
+	"0000000000000000000000000000000000000000000000000000000000000080",
+	"c7176a703d4dd84fba3c0b760d10670f2a2053fa2c39ccc64ec7fd7792ac037a",
+}
+
+func makeVariants(ct *cert, hash crypto.Hash) []variant {
+	var out []variant
+	add := func(name string, sig crypto.Signature) {
+		if sig != ct.sig {
+			out = append(out, variant{name, sig})
+		}
+	}
+	S := leInt(ct.sig[32:])
+	for k := int64(1); k <= 16; k++ { // S + kL for every k that fits in 256 bits
+		v := new(big.Int).Add(S, new(big.Int).Mul(big.NewInt(k), groupL))
+		if v.BitLen() > 256 {
+			break
+		}
+		sig := ct.sig
+		copy(sig[32:], le32(v))
+		add(fmt.Sprintf("s+%dL", k), sig)
+	}
+	for _, m := range []byte{0x80, 0x40, 0x20, 0xe0, 0x10} { // top bits of S set
+		sig := ct.sig
+		sig[63] |= m
+		add(fmt.Sprintf("s-top-%02x", m), sig)
+	}
+	// R: non-canonical encoding of the same point (y + p when it fits in 255 bits)
+	sign := ct.sig[31] & 0x80
+	yb := append([]byte(nil), ct.sig[:32]...)
+	yb[31] &= 0x7f
+	y := leInt(yb)
+	if yp := new(big.Int).Add(y, fieldP); yp.BitLen() <= 255 {
+		sig := ct.sig
+		copy(sig[:32], le32(yp))
+		sig[31] |= sign
+		add("r-y+p", sig)
+	}
+	{
+		sig := ct.sig
+		sig[31] ^= 0x80 // the sign bit: same point only when x = 0, otherwise -x
+		add("r-sign", sig)
+	}
+	R, err := edwards25519.NewIdentityPoint().SetBytes(ct.sig[:32])
+	if err == nil {
+		for ti, th := range torsionHex {
+			tb, _ := crypto.KeyFromString(th)
+			T, err := edwards25519.NewIdentityPoint().SetBytes(tb[:])
+			if err != nil {
+				continue
+			}
+			R2 := edwards25519.NewIdentityPoint().Add(R, T)
+			sig := ct.sig
+			copy(sig[:32], R2.Bytes())
+			add(fmt.Sprintf("r+T%d", ti), sig)
+			if ct.rsum != nil { // S recomputed for the new challenge: r + c'*a
+				cs := &crypto.CosiSignature{Signature: sig, Mask: ct.mask}
+				ch, err := cs.Challenge(ct.pubs, hash)
+				if err == nil {
+					s2 := edwards25519.NewScalar().MultiplyAdd(ch, ct.asum, ct.rsum)
+					copy(sig[32:], s2.Bytes())
+					add(fmt.Sprintf("r+T%d-s-adjusted", ti), sig)
+				}
+			}
+		}
+	}
+	return out
+}
+
+func (ct *cert) withSig(sig crypto.Signature) *cert {
+	v := *ct
+	v.sig = sig
+	sn := *ct.snap
+	sn.Signature = &crypto.CosiSignature{Signature: sig, Mask: ct.mask}
+	v.snap = &sn
+	return &v
+}
+
+// emitCase prints one model case from a log of steps.
+func emitCase(c *vh.Ctx, cs Case, w *mbr.World, log []rec, kind, key string, nontrivial bool) {
+	extra := []int{}
+	for i := 0; i <= cs.MaxSig; i++ {
+		extra = append(extra, i)
+	}
+	a := w.AliasFor(extra, nil)
+	for _, l := range log {
+		if l.cert != nil {
+			a.Add(l.cert.sig[:])
+			a.Add(l.cert.snap.Hash[:])
+		}
+	}
+	tab := &aggTable{seen: map[string]bool{}}
+	var steps []string
+	for _, l := range log {
+		switch l.step.Kind {
+		case "load":
+			// the store as it was at that point: re-printing from the log keeps reloads faithful
+			el := make([]string, len(l.store))
+			for i, r := range l.store {
+				el[i] = w.RecTerm(a, r)
+			}
+			steps = append(steps, vh.App("SLoad", vh.List(el, "nrec")))
+		case "verify":
+			ct := l.cert
+			for _, keys := range l.cand {
+				tab.add(a, keys, ct.mask, ct.snap.Hash, ct.sig)
+			}
+			info := vh.None("nrec")
+			if ct.spec.Chain == 1 || ct.spec.Chain == 2 {
+				s := w.S(ct.spec.Info)
+				info = vh.Some(fmt.Sprintf("(mkrec 0 %d %d %d 0 Pledging)", a.Of(s.Id[:]), a.Of(s.Pub[:]), a.Of(s.Payee[:])))
+			}
+			ch := vh.App("mkchain", info, vh.Bool(ct.spec.Chain == 0 || ct.spec.Chain == 2))
+			snap := vh.App("mksnap", vh.NU(uint64(ct.spec.Version)), vh.Bool(!ct.spec.NilSig), vh.NU(ct.mask), a.N(ct.sig[:]),
+				hashTerm(a, ct.snap.Hash), a.T(ct.spec.SnapTs), vh.NU(ct.spec.Round))
+			steps = append(steps, vh.App("SVerify", ch, snap, l.res.term(a)))
+		case "cosi-swap":
+			ct := l.cert
+			tab.add(a, l.pubs, ct.mask, ct.snap.Hash, ct.sig)
+			steps = append(steps, vh.App("SCosi", hashTerm(a, ct.snap.Hash), a.N(ct.sig[:]), vh.NU(ct.mask),
+				mbr.HashesTerm(a, l.cids), mbr.KeysTerm(a, l.pubs), vh.ZI(int64(l.thr)), l.res.term(a)))
+		}
+	}
+	term := vh.App("CFin", mbr.HashesTerm(a, w.GenesisIds()), a.T(cs.Epoch), vh.Bool(cs.Mainnet),
+		vh.List(tab.rows, "(list N * N * N * bool)"), vh.List(steps, "step"))
+	c.Case(kind, key, nontrivial, cs, a.Wrap(term))
+}
+
 func run(c *vh.Ctx, cs Case) {
 	w := mbr.NewWorld(store, cs.Mainnet, cs.Epoch, cs.Genesis)
 	for _, op := range cs.Ops {
@@ -342,23 +569,30 @@ func run(c *vh.Ctx, cs Case) {
 	defer func() { ref.VerifC09CloseCache() }()
 
 	// every value that will be aliased must be known before printing: run first, print after
-	type rec struct {
-		step   Step
-		store  []mbr.Rec
-		cert   *cert
-		res    result
-		cids   []crypto.Hash
-		pubs   []*crypto.Key
-		thr    int
-		cand   [][]*crypto.Key
-		epochN int
-	}
 	var log []rec
 	certs := make([]*cert, len(cs.Certs))
 	first := map[string]string{}
 	loads := 0
 	accepted, hits := 0, 0
 	log = append(log, rec{step: Step{Kind: "load"}, store: w.SortedRecs()})
+	// key sets the verification may look at for a certificate: the effective time and the legacy time
+	candKeys := func(spec CertSpec) [][]*crypto.Key {
+		eff := spec.SnapTs
+		if spec.Present < 0 {
+			eff -= mbr.Minute
+		}
+		ch := chainOf(w, ref, spec.Chain, spec.Info)
+		_, k := ch.ConsensusKeys(spec.Round, eff)
+		out := [][]*crypto.Key{k}
+		if eff >= cs.Epoch {
+			hour := (eff - cs.Epoch) / mbr.Hour % 24
+			if hour >= config.KernelNodeAcceptTimeBegin && hour <= config.KernelNodeAcceptTimeEnd {
+				_, lk := ch.ConsensusKeys(spec.Round, eff-(hour+1-config.KernelNodeAcceptTimeBegin)*mbr.Hour)
+				out = append(out, lk)
+			}
+		}
+		return out
+	}
 	for _, st := range cs.Steps {
 		switch st.Kind {
 		case "load":
@@ -374,6 +608,58 @@ func run(c *vh.Ctx, cs Case) {
 			log = append(log, rec{step: st, store: w.SortedRecs()})
 		case "wait":
 			node.VerifC09CacheWait()
+		case "variants":
+			// every algebraically equivalent re-encoding of an accepted certificate's signature must be
+			// refused: after the genuine one on this node (cache), and before and after it on a fresh node
+			if st.Cert >= len(certs) || cs.Certs[st.Cert].Base > 0 || cs.Certs[st.Cert].NilSig {
+				continue
+			}
+			if certs[st.Cert] == nil {
+				certs[st.Cert] = buildCert(w, ref, cs, cs.Certs[st.Cert])
+			}
+			ct := certs[st.Cert]
+			cand := candKeys(ct.spec)
+			g := verify(w, node, ct)
+			log = append(log, rec{step: Step{Kind: "verify"}, cert: ct, res: g, cand: cand})
+			if !g.fin {
+				c.Count("variants-skipped-certificate-not-accepted")
+				continue
+			}
+			node.VerifC09CacheWait()
+			vs := makeVariants(ct, ct.snap.Hash)
+			check := func(nd *kernel.Node, lg *[]rec, v variant, when string) {
+				vc := ct.withSig(v.sig)
+				r := verify(w, nd, vc)
+				*lg = append(*lg, rec{step: Step{Kind: "verify"}, cert: vc, res: r, cand: cand})
+				c.Count("signature-variants-checked")
+				if r.fin || r.pan {
+					c.Fail("signature-variant-accepted", fmt.Sprintf("signature re-encoding %s (bytes differ from the genuine signature) was accepted %s the genuine certificate", v.name, when), cs)
+				}
+			}
+			for _, v := range vs {
+				check(node, &log, v, "after")
+			}
+			node.VerifC09CacheWait()
+			for _, v := range vs[:len(vs)/2] {
+				check(node, &log, v, "again after")
+			}
+			fresh := w.Node()
+			flog := []rec{{step: Step{Kind: "load"}, store: w.SortedRecs()}}
+			for _, v := range vs {
+				check(fresh, &flog, v, "before")
+			}
+			fresh.VerifC09CacheWait()
+			fg := verify(w, fresh, ct)
+			flog = append(flog, rec{step: Step{Kind: "verify"}, cert: ct, res: fg, cand: cand})
+			if fg.key() != g.key() {
+				c.Fail("memo-differs-from-fresh", "the genuine certificate is judged differently after its re-encodings were refused", cs)
+			}
+			fresh.VerifC09CacheWait()
+			for _, v := range vs {
+				check(fresh, &flog, v, "after (fresh node)")
+			}
+			fresh.VerifC09CloseCache()
+			emitCase(c, cs, w, flog, "variants-fresh-node", fmt.Sprintf("vf|%d|%v", st.Cert, cs), true)
 		case "verify", "cosi-swap":
 			if st.Cert >= len(certs) {
 				continue
@@ -504,57 +790,11 @@ func run(c *vh.Ctx, cs Case) {
 		}
 	}
 
-	// ---- print the model case ----------------------------------------------------------
-	extra := []int{}
-	for i := 0; i <= cs.MaxSig; i++ {
-		extra = append(extra, i)
-	}
-	a := w.AliasFor(extra, nil)
-	for _, ct := range certs {
-		if ct != nil {
-			a.Add(ct.sig[:])
-			a.Add(ct.snap.Hash[:])
-		}
-	}
-	tab := &aggTable{seen: map[string]bool{}}
-	var steps []string
-	for _, l := range log {
-		switch l.step.Kind {
-		case "load":
-			// the store as it was at that point: re-printing from the log keeps reloads faithful
-			el := make([]string, len(l.store))
-			for i, r := range l.store {
-				el[i] = w.RecTerm(a, r)
-			}
-			steps = append(steps, vh.App("SLoad", vh.List(el, "nrec")))
-		case "verify":
-			ct := l.cert
-			for _, keys := range l.cand {
-				tab.add(a, keys, ct.mask, ct.snap.Hash, ct.sig)
-			}
-			info := vh.None("nrec")
-			if ct.spec.Chain == 1 || ct.spec.Chain == 2 {
-				s := w.S(ct.spec.Info)
-				info = vh.Some(fmt.Sprintf("(mkrec 0 %d %d %d 0 Pledging)", a.Of(s.Id[:]), a.Of(s.Pub[:]), a.Of(s.Payee[:])))
-			}
-			ch := vh.App("mkchain", info, vh.Bool(ct.spec.Chain == 0 || ct.spec.Chain == 2))
-			snap := vh.App("mksnap", vh.NU(uint64(ct.spec.Version)), vh.Bool(!ct.spec.NilSig), vh.NU(ct.mask), a.N(ct.sig[:]),
-				hashTerm(a, ct.snap.Hash), a.T(ct.spec.SnapTs), vh.NU(ct.spec.Round))
-			steps = append(steps, vh.App("SVerify", ch, snap, l.res.term(a)))
-		case "cosi-swap":
-			ct := l.cert
-			tab.add(a, l.pubs, ct.mask, ct.snap.Hash, ct.sig)
-			steps = append(steps, vh.App("SCosi", hashTerm(a, ct.snap.Hash), a.N(ct.sig[:]), vh.NU(ct.mask),
-				mbr.HashesTerm(a, l.cids), mbr.KeysTerm(a, l.pubs), vh.ZI(int64(l.thr)), l.res.term(a)))
-		}
-	}
-	term := vh.App("CFin", mbr.HashesTerm(a, w.GenesisIds()), a.T(cs.Epoch), vh.Bool(cs.Mainnet),
-		vh.List(tab.rows, "(list N * N * N * bool)"), vh.List(steps, "step"))
 	kind := "rejected-only"
 	if accepted > 0 {
 		kind = "with-accepted"
 	}
-	c.Case(kind, fmt.Sprintf("%v", cs), accepted > 0 && hits > 0, cs, a.Wrap(term))
+	emitCase(c, cs, w, log, kind, fmt.Sprintf("%v", cs), accepted > 0 && hits > 0)
 	// the swap observation is informational: see the report
 	for i := 0; i+1 < len(log); i++ {
 		if log[i].step.Kind == "cosi-swap" && log[i+1].step.Kind == "cosi-swap" && log[i].res.fin &&
@@ -732,6 +972,14 @@ func genCase(c *vh.Ctx) Case {
 			cs.Steps = append(cs.Steps, Step{Kind: "verify", Cert: r.Intn(nc)})
 		}
 	}
+	if r.Chance(1, 5) {
+		for i, sp := range cs.Certs {
+			if sp.Forge == "" && sp.Base == 0 && !sp.NilSig && sp.Hash == sp.Present && sp.SignTs == sp.SnapTs && sp.Size >= 0 {
+				cs.Steps = append(cs.Steps, Step{Kind: "variants", Cert: i})
+				break
+			}
+		}
+	}
 	cs.MaxSig = g.nextSig + 1
 	return cs
 }
@@ -784,6 +1032,9 @@ func corpus() []Case {
 	// find which genesis signer is first in (timestamp,id) order is irrelevant here: the removal is recorded, any signer works
 	return []Case{
 		{Epoch: e, Genesis: g8, Ops: ops8, Certs: certs, Steps: verifyAll(len(certs)), MaxSig: 9},
+		{Epoch: e, Genesis: g8, Ops: ops8, Certs: certs[:1], Steps: []Step{{Kind: "variants", Cert: 0}}, MaxSig: 9},
+		{Epoch: e, Genesis: g8, Ops: ops8, Certs: []CertSpec{with(func(s *CertSpec) { s.Hash, s.Present, s.Size, s.Pick = 7, 7, 1, 11 })},
+			Steps: []Step{{Kind: "verify", Cert: 0}, {Kind: "wait"}, {Kind: "variants", Cert: 0}}, MaxSig: 9},
 		{Epoch: e, Genesis: g8, Ops: ops8, Certs: []CertSpec{base}, MaxSig: 9,
 			Steps: []Step{{Kind: "verify", Cert: 0}, {Kind: "wait"}, {Kind: "cosi-swap", Cert: 0}, {Kind: "verify", Cert: 0}}},
 		{Mainnet: true, Epoch: le, Genesis: g9, Ops: legacyOps, MaxSig: 10,
